@@ -1,6 +1,7 @@
 #!/bin/bash
 # builds the Coq development from files on disk only (full .vo build), then the gate
 set -e
+python3 "$(dirname "$0")/harness/classtable.py" > /dev/null   # C11: the class table is generated from /repo
 cd "$(dirname "$0")/coq"
 coq_makefile -f _CoqProject -o Makefile > /dev/null
 timeout 3000 make -j16
